@@ -28,6 +28,7 @@ type c14ReopenCase struct {
 	Op     string // list | load
 	Nth    int    // the n-th such operation of the reopening writer fails (1-based)
 	Unsafe bool
+	NoMerge bool // no merging: every segment of phase 1 is still there (and in use) when the index is re-opened
 }
 
 type c14ReopenResult struct {
@@ -68,6 +69,9 @@ func c14ReopenWorkload(cs *c14ReopenCase, res *c14ReopenResult) {
 	freshDir(cs.Dir)
 	r := rand.New(rand.NewSource(cs.Seed))
 	fs := fsOpts{Loader: "mmap", Merge: "happy", MemMerge: cs.Seed%2 == 0, Unsafe: cs.Unsafe}
+	if cs.NoMerge {
+		fs.Merge = "none"
+	}
 	// phase 1: an ordinary history, fault free
 	w, err := bluge.OpenWriter(fsConfig(cs.Dir, fs, nil))
 	if err != nil {
@@ -76,6 +80,12 @@ func c14ReopenWorkload(cs *c14ReopenCase, res *c14ReopenResult) {
 	}
 	cur := &model.Index{}
 	batches := genHistory(r, 10, 6, "v")
+	// the first batches also carry a document that is never touched again: their segments (the ones with
+	// the LOWEST ids) stay in use for the whole run
+	for k := 0; k < 3 && k < len(batches); k++ {
+		id := fmt.Sprintf("keep%d", k)
+		batches[k].Ops = append(batches[k].Ops, model.Op{Kind: "update", ID: id, Doc: &model.Doc{ID: id, V: "keep-v", Text: map[string]string{"t": "keep"}}})
+	}
 	for _, b := range batches {
 		if err := w.Batch(b.ToBluge()); err != nil {
 			res.BatchErrs = append(res.BatchErrs, "phase 1: "+err.Error())
@@ -121,7 +131,9 @@ func c14ReopenWorkload(cs *c14ReopenCase, res *c14ReopenResult) {
 		}
 	}
 	// the writer reported success (at once or at the second attempt): it must be usable
-	more := genHistory(r, 8, 6, "w")
+	// (more batches than phase 1 created segments and merges: segment ids handed out after the reopen must
+	// get past every id that is already in use)
+	more := genHistory(r, 30, 6, "w")
 	for i, b := range more {
 		if err := w.Batch(b.ToBluge()); err != nil {
 			res.BatchErrs = append(res.BatchErrs, fmt.Sprintf("batch %d after the reopen: %v", i+1, err))
@@ -155,7 +167,7 @@ func c14Reopen(c *vk.Ctx) {
 	for h := 0; h < n; h++ {
 		for _, op := range []string{"list", "load"} {
 			for nth := 1; nth <= 3; nth++ {
-				cases = append(cases, c14ReopenCase{Seed: vk.SubSeed(c.Seed, fmt.Sprintf("c14-reopen-%d", h)), Dir: c.TempDir("c14r-"), Op: op, Nth: nth, Unsafe: h%3 == 2})
+				cases = append(cases, c14ReopenCase{Seed: vk.SubSeed(c.Seed, fmt.Sprintf("c14-reopen-%d", h)), Dir: c.TempDir("c14r-"), Op: op, Nth: nth, Unsafe: h%3 == 2, NoMerge: h%2 == 1})
 			}
 		}
 	}
